@@ -27,7 +27,7 @@ CLAIMED = {
    note=BASE_NOTE + 'Display of text that is not valid UTF-8 is String::from_utf8_lossy (std) of the text before the first NUL: not modelled, checked by the harness against from_utf8_lossy of that prefix.',
    technique=TECH),
  'C15': dict(
-   text='Theorems over all buffer contents and lengths, all 256 byte values (finite sweep lifted by forallb_forall) and an arbitrary is_some predicate, about the Gallina model of PodBool/PodOption/load/load_mut; model and crate compared on every run.',
+   text='Theorems over all buffer contents and lengths, all 256 byte values (finite sweep lifted by forallb_forall) and an arbitrary is_some predicate, about the Gallina model of PodBool/PodOption/load/load_mut, including the lens laws of the load/load_mut view (store of the loaded value is the identity, last store wins, a loaded value is its own view, a store depends only on the value and the bytes behind the view); model and crate compared on every run.',
    note=BASE_NOTE + 'Modelled, not verified: that #[repr(C)] single-field wrappers have the size and bytes of the inner type (checked by the harness with size_of/bytes_of for inner types of 1, 4, 8 and 32 bytes).',
    technique='Coq proof (total functions over byte lists, finite sweep by vm_compute) + differential correspondence check'),
 }
